@@ -108,6 +108,15 @@ func VxC06_HypergeometricArgs() {
 		vx.Assert(vx.SameBits(ck, d.CDF(float64(ki))), "a non-integer k is treated as floor(k) by CDF")
 	}
 	vx.Assert(vx.SameBits(d.Mean(), float64(D*K)/float64(N)), "Mean = Draws*K/N")
+	// the first two moments of the PMF over the support (concrete per (N, K, Draws))
+	m1, m2 := 0.0, 0.0
+	for j := int(lo); j <= int(hi); j++ {
+		pj := d.PMF(float64(j))
+		m1 += float64(j) * pj
+		m2 += float64(j) * float64(j) * pj
+	}
+	vx.Assert(vx.Near(d.Mean(), m1, 1e-10, 1e-12), "Mean is the first moment of the PMF")
+	vx.Assert(vx.Near(d.Variance(), m2-m1*m1, 1e-9, 1e-10), "Variance is the second central moment of the PMF")
 }
 
 // vxBetaIncUF: the incomplete beta function as an uninterpreted function of its arguments.
